@@ -191,6 +191,10 @@ type scenario struct {
 	// CacheLag gives the reconciler distinct clients (M7): the cached one has not yet seen composed
 	// resources that were written exactly once, the uncached one (same Run) reads the live store.
 	CacheLag bool `json:"cacheLag,omitempty"`
+	// ForeignPlain: for a foreign-controlled resource, its ownerReferences ALSO list this XR as a plain
+	// (non-controller) owner, "first" = before the foreign controller reference, "last" = after it. It is
+	// still controlled by the other owner: not this XR's, never deleted nor written (M2).
+	ForeignPlain map[string]string `json:"foreignPlain,omitempty"`
 	// StaleXR (M9): the first read of the XR in the reconcile under test is stale. Prev, if set, is what an
 	// even earlier successful script composed, so that the stale copy references other resources than Good.
 	StaleXR bool     `json:"staleXR,omitempty"`
@@ -654,7 +658,16 @@ func setup(sc scenario) (*world, string) {
 			u.SetOwnerReferences(nil)
 			err = c.Update(ctx, u)
 		case pForeign:
-			u.SetOwnerReferences([]metav1.OwnerReference{{APIVersion: "example.org/v1", Kind: "XThing", Name: "other", UID: "foreign-uid", Controller: ptr.To(true), BlockOwnerDeletion: ptr.To(true)}})
+			foreign := metav1.OwnerReference{APIVersion: "example.org/v1", Kind: "XThing", Name: "other", UID: "foreign-uid", Controller: ptr.To(true), BlockOwnerDeletion: ptr.To(true)}
+			plain := metav1.OwnerReference{APIVersion: "example.org/v1", Kind: "XThing", Name: xrName, UID: types.UID(w.xrUID)}
+			switch sc.ForeignPlain[n] {
+			case "first":
+				u.SetOwnerReferences([]metav1.OwnerReference{plain, foreign})
+			case "last":
+				u.SetOwnerReferences([]metav1.OwnerReference{foreign, plain})
+			default:
+				u.SetOwnerReferences([]metav1.OwnerReference{foreign})
+			}
 			err = c.Update(ctx, u)
 		default:
 			err = fmt.Errorf("unknown perturbation %q", sc.Perturb[n])
@@ -1146,6 +1159,14 @@ func genScenario() *rapid.Generator[scenario] {
 		sc.Good = sorted(goodSet)
 		for _, n := range sc.Good {
 			sc.Perturb[n] = rapid.SampledFrom([]string{pPresent, pPresent, pPresent, pMissing, pTerminating, pUncontrolled, pForeign}).Draw(t, "perturb")
+			if sc.Perturb[n] == pForeign {
+				if fp := rapid.SampledFrom([]string{"", "first", "first", "last"}).Draw(t, "foreignplain"); fp != "" {
+					if sc.ForeignPlain == nil {
+						sc.ForeignPlain = map[string]string{}
+					}
+					sc.ForeignPlain[n] = fp
+				}
+			}
 		}
 		if len(sc.Good) > 0 {
 			switch rapid.IntRange(0, 7).Draw(t, "refsperturb") {
@@ -1315,6 +1336,19 @@ func classify(rec *verifkit.Recorder, sc scenario, v verdict) {
 	}
 	for _, n := range sc.Good {
 		rec.Label("perturb=" + sc.Perturb[n])
+		if fp := sc.ForeignPlain[n]; fp != "" && sc.Perturb[n] == pForeign {
+			m, state := "pt", "name-undesired"
+			if sc.Pipeline {
+				m = "pipeline"
+			}
+			if v.Desired[n] {
+				state = "name-still-desired"
+			}
+			if v.Fails {
+				state = "not-succeeding"
+			}
+			rec.Labelf("foreign+plain-ref-to-this-XR-%s(%s,%s)", fp, m, state)
+		}
 	}
 	mode := "pt"
 	if sc.Pipeline {
@@ -1546,6 +1580,10 @@ func TestVerifC03Pinned(t *testing.T) {
 		{name: "stale first XR read (refs of an earlier script), new revision, go error", sc: scenario{Pipeline: true, Prev: []string{"r0", "r2", "r3"}, Good: []string{"r0", "r1"}, Perturb: all, StaleXR: true, Steps: []stepSpec{{Ops: add("r0"), Fail: "error"}}}, fails: true},
 		{name: "stale first XR read (before a refs edit), new revision, unstable requirements", sc: scenario{Pipeline: true, Good: []string{"r0", "r1"}, Perturb: all, StaleXR: true, DupRef: "r1", Steps: []stepSpec{{Ops: add("r0"), Reqs: changes(6)}}}, fails: true},
 		{name: "stale first XR read, new revision, script would succeed", sc: scenario{Pipeline: true, Prev: []string{"r2"}, Good: []string{"r0", "r1"}, Perturb: all, StaleXR: true, Steps: []stepSpec{{Ops: add("r0")}}}, expectDel: "r1"},
+		{name: "foreign-controlled, plain ref to this XR first, undesired (pipeline)", sc: scenario{Pipeline: true, Good: []string{"r0", "r1"}, Perturb: map[string]string{"r0": pForeign, "r1": pPresent}, ForeignPlain: map[string]string{"r0": "first"}, Steps: []stepSpec{{Ops: add("r2")}}}, expectDel: "r1"},
+		{name: "foreign-controlled, plain ref to this XR last, undesired (pipeline)", sc: scenario{Pipeline: true, Good: []string{"r0", "r1"}, Perturb: map[string]string{"r0": pForeign, "r1": pPresent}, ForeignPlain: map[string]string{"r0": "last"}, Steps: []stepSpec{{Ops: add("r2")}}}, expectDel: "r1"},
+		{name: "foreign-controlled, plain ref to this XR first, template gone (P&T)", sc: scenario{Good: []string{"r0", "r1"}, Perturb: map[string]string{"r0": pForeign, "r1": pPresent}, ForeignPlain: map[string]string{"r0": "first"}, Templates: []string{"r1"}}, fails: true},
+		{name: "foreign-controlled, plain ref to this XR last, template gone (P&T)", sc: scenario{Good: []string{"r0", "r1"}, Perturb: map[string]string{"r0": pForeign, "r1": pPresent}, ForeignPlain: map[string]string{"r0": "last"}, Templates: []string{"r1"}}, fails: true},
 		{name: "P&T foreign-controlled without template", sc: scenario{Good: []string{"r0", "r1"}, Perturb: map[string]string{"r0": pForeign, "r1": pPresent}, Templates: []string{"r1"}}, fails: true},
 	}
 	for i, row := range rows {
